@@ -1156,6 +1156,22 @@ def case_gauge(ctx, seed, coq_out=None):
     pouts = [ix for ix in outs if any(ix in tens[i] for i in members)]
     perm = [outs.index(ix) for ix in pouts] + [a for a, ix in enumerate(outs) if ix not in pouts]
     rho_exact = rdm_of(np.transpose(psi, perm), len(pouts))
+    # the product of the boundary messages is the exact environment of the patch iff no two of its bonds lead into the
+    # same outside subtree, i.e. iff the patch is connected inside every tree of the forest
+    inner = [[i for i in members if ix in tens[i]] for ix in dim if ix not in outs]
+    link = {i: i for i in members}
+
+    def _find(a):
+        while link[a] != a:
+            a = link[a]
+        return a
+
+    for pr in inner:
+        if len(pr) == 2:
+            link[_find(pr[0])] = _find(pr[1])
+    whole = components(tens)
+    connected = all(len({_find(i) for i in members if i in comp}) <= 1 for comp in whole)
+    desc["patch_connected"] = connected
 
     def insert(bp_, tn_, **kw):
         if entry == "D2BP.gauge_insert":
@@ -1200,7 +1216,7 @@ def case_gauge(ctx, seed, coq_out=None):
                                   f"singular values**(1/power) {sv} of the inserted factor on {ix} are not sqrt(eig) + smudge*max = "
                                   f"{sp1}", {**desc, "ind": ix})
                     return
-            if smudge <= 1e-12 and power == 1.0:
+            if smudge <= 1e-12 and power == 1.0 and connected:
                 # the environment of the gauged patch is the identity: its own Gram matrix is the exact reduced density matrix
                 cix = [ix for ix, _ in cut]
                 rho = rdm_of(dense_of(patch, pouts + cix), len(pouts))
